@@ -4,6 +4,7 @@ C05 — muxed continuity counters advance by one per payload packet on every PID
 import Astits.Model.Mux
 import Astits.Spec.Mux
 import Astits.Proofs.MuxCounters
+import Astits.Proofs.MuxAuto
 namespace Astits.C05
 
 /-- the 4-bit wrapping counter of the code: after `inc`, the value is the successor modulo 16
@@ -311,5 +312,181 @@ example : (∀ op ∈ exOps2, OpOK op ∧ ∀ d, op = .data d → DataOK d) ∧
   · exact ⟨trivial, by intro d h; cases h; exact exData2_ok⟩
   · exact ⟨trivial, by intro d h; cases h; exact exData_ok _⟩
   · exact ⟨trivial, by intro d h; cases h; exact exData2_ok⟩
+
+/-! ## C05 with AUTOMATIC PIDs and raw `WritePacket` calls (proofs: `Astits/Proofs/MuxAuto.lean`)
+
+`history_counters` above requires `OpOK`: every `AddElementaryStream` names its PID.  The theorems of this section
+drop that restriction: an `AddElementaryStream` with `ElementaryPID = 0` gets the automatic PID
+`MuxTables.autoPID m` (C17 T4).  Admissibility is `MuxTables.StepOK'` = `OpOK'` (an explicit PID is 13-bit and not
+0x1000; PID 0 asks for an automatic one) ∧ `Room` (an automatic PID is only asked for while fewer than 7934 streams
+exist); the invariant carried along the history is `MuxTables.PidInv`.
+`MuxAuto.StepOKA m op` = `StepOK' m op ∧ (op = .data d → NoBurn m d)`. -/
+
+namespace Auto
+open MuxTables (StepOK' OpOK' Room PidInv autoPID isAdd)
+open MuxAuto (StepOKA StepNoPanicA opsOf ownWritten rawWritten)
+open MuxWhole (Call hist written)
+
+/-- an automatic add moves no counter: the new stream's PID continues from the counter kept for that PID when a stream
+on it was last removed, or starts fresh (16 → first packet carries 0) -/
+theorem auto_add_keeps_counters (m : Mux) (es : PMTElementaryStream) (h : PidInv m) (h0 : es.elementaryPID = 0)
+    (hroom : m.streams.length < 7934) (p : Nat) :
+    stored (m.addElementaryStream es).2 p = stored m p :=
+  MuxAuto.add_auto_stored m es h h0 hroom p
+
+/-- **per-step preservation, automatic PIDs included** -/
+theorem step_preserves_auto (m : Mux) (op : Op) (h : PidInv m) (hok : StepOKA m op) :
+    PidInv (step m op).2 ∧ ∀ p, Adv (stored m p) (ccsOn p (step m op).1) (stored (step m op).2 p) :=
+  MuxAuto.step_adv' m op h hok
+
+/-- **History theorem with automatic PIDs.**  From a new muxer, over any interleaving of stream additions (explicit
+13-bit PIDs other than 0x1000, or PID 0 = automatic assignment while fewer than 7934 streams exist), removals,
+`SetPCRPID`, `WriteTables`, `WriteData` on any PIDs and failed calls, in which no `WriteData` burns a counter value: on
+EVERY PID the payload-carrying chunks, in emission order, carry the counters 0, 1, 2, … modulo 16, and the muxer's
+stored counter is the last one sent. -/
+theorem history_counters_auto (period : Nat) (ops : List Op)
+    (hok : RunAll (fun m op => StepOK' m op ∧ (∀ d, op = .data d → NoBurn m d)) (newMux period) ops) (p : Nat) :
+    ccsOn p (run (newMux period) ops).1
+        = (List.range (ccsOn p (run (newMux period) ops).1).length).map (· % 16) ∧
+    stored (run (newMux period) ops).2 p = adv 16 (ccsOn p (run (newMux period) ops).1).length :=
+  MuxAuto.history_counters_auto period ops hok p
+
+/-- the same when no `WriteData` of the history panics (observable) -/
+theorem history_counters_auto_noPanic (period : Nat) (ops : List Op)
+    (hok : RunAll (fun m op => StepOK' m op ∧ (∀ d, op = .data d → (m.writeData d).1.panic = false)) (newMux period) ops)
+    (p : Nat) :
+    ccsOn p (run (newMux period) ops).1
+        = (List.range (ccsOn p (run (newMux period) ops).1).length).map (· % 16) ∧
+    stored (run (newMux period) ops).2 p = adv 16 (ccsOn p (run (newMux period) ops).1).length :=
+  MuxAuto.history_counters_auto period ops (MuxAuto.runAll_noPanic _ ops (MuxTables.pidInv_new period) hok) p
+
+/-- the same under a purely static condition: every call is `OpOK'`, every `WriteData` input is `DataOK`, and there
+are at most 7934 `AddElementaryStream` calls (so that an automatic PID is always available) -/
+theorem history_counters_auto_dataOK (period : Nat) (ops : List Op)
+    (hok : ∀ op ∈ ops, OpOK' op ∧ ∀ d, op = .data d → DataOK d)
+    (hn : (ops.filter isAdd).length ≤ 7934) (p : Nat) :
+    ccsOn p (run (newMux period) ops).1
+        = (List.range (ccsOn p (run (newMux period) ops).1).length).map (· % 16) ∧
+    stored (run (newMux period) ops).2 p = adv 16 (ccsOn p (run (newMux period) ops).1).length :=
+  MuxAuto.history_counters_auto period ops
+    (MuxAuto.runAll_static _ ops (MuxTables.pidInv_new period) hok (by show 0 + _ ≤ _; omega)) p
+
+/-- from any state satisfying `PidInv` -/
+theorem history_counters_auto_from (m : Mux) (ops : List Op) (h : PidInv m) (hok : RunAll StepOKA m ops) (p : Nat) :
+    Adv (stored m p) (ccsOn p (run m ops).1) (stored (run m ops).2 p) :=
+  MuxAuto.history_counters_auto_from m ops h hok p
+
+/-- **History theorem for ALL API calls, raw `WritePacket` included.**  `cs` is a history of `MuxWhole.Call`s: the five
+calls above and `WritePacket p` with an arbitrary caller-built packet `p` (which writes the caller's continuity
+counter on the caller's PID and does not touch the muxer state: `MuxAuto.writePacketCall_state`).  `opsOf cs` is the
+history with the raw calls deleted, `ownWritten` the chunks handed to the writer by the other calls, `rawWritten`
+those of the raw calls, `written (hist …).1` everything, in order.  If the muxer's own calls are admissible, then
+1. on every PID the chunks emitted by the muxer's own calls carry 0, 1, 2, … mod 16 and the stored counter is the last
+   one sent — whatever the raw packets are;
+2. on every PID on which no raw packet was written, the same holds of the COMPLETE output.
+Nothing can be said of a PID shared by raw packets and muxer packets: see the counter-example below. -/
+theorem history_counters_calls (period : Nat) (cs : List Call)
+    (hok : RunAll (fun m op => StepOK' m op ∧ (∀ d, op = .data d → NoBurn m d)) (newMux period) (opsOf cs)) (p : Nat) :
+    (ccsOn p (ownWritten (newMux period) cs)
+        = (List.range (ccsOn p (ownWritten (newMux period) cs)).length).map (· % 16) ∧
+     stored (hist (newMux period) cs).2 p = adv 16 (ccsOn p (ownWritten (newMux period) cs)).length) ∧
+    ((∀ c ∈ rawWritten (newMux period) cs, pktPID c ≠ p) →
+      ccsOn p (written (hist (newMux period) cs).1)
+        = (List.range (ccsOn p (written (hist (newMux period) cs).1)).length).map (· % 16) ∧
+      stored (hist (newMux period) cs).2 p = adv 16 (ccsOn p (written (hist (newMux period) cs).1)).length) :=
+  MuxAuto.history_counters_calls period cs hok p
+
+/-- the side condition of (2) follows from the raw packets' headers: 13-bit PID other than `p`, 2-bit scrambling control,
+4-bit counter -/
+theorem raw_packets_off_pid (p : Nat) (m : Mux) (cs : List Call)
+    (h : ∀ pk, Call.packet pk ∈ cs → pk.header.pid < 8192 ∧ pk.header.transportScramblingControl < 4 ∧
+      pk.header.continuityCounter < 16 ∧ pk.header.pid ≠ p) :
+    ∀ c ∈ rawWritten m cs, pktPID c ≠ p :=
+  MuxAuto.raw_off_pid p m cs h
+
+/-! ### non-vacuity -/
+
+/-- two automatic PIDs (0x100, 0x101), an explicit one (0x102), removal and automatic re-addition, data, tables -/
+def exAutoES (t : Nat) : PMTElementaryStream := { elementaryPID := 0, streamType := t }
+def exDataOn (pid n : Nat) : MuxerData :=
+  { pid := pid, pes := { data := List.replicate n 7, header := { streamID := 0xe0 } } }
+def exAutoOps : List Op :=
+  [.add (exAutoES 0x1b), .add (exAutoES 0x0f), .add { elementaryPID := 0x102, streamType := 0x0f }, .setPCR 0x100,
+   .data (exDataOn 0x100 300), .data (exDataOn 0x101 10), .remove 0x101, .add (exAutoES 0x0f), .data (exDataOn 0x103 10),
+   .data (exDataOn 0x102 200), .tables]
+
+theorem exDataOn_ok (pid n : Nat) : DataOK (exDataOn pid n) :=
+  ⟨rfl, (by intro oh h; cases h), (by intro a h; cases h)⟩
+
+theorem exAutoOps_ok : ∀ op ∈ exAutoOps, OpOK' op ∧ ∀ d, op = .data d → DataOK d := by
+  intro op hop
+  simp only [exAutoOps, List.mem_cons, List.mem_nil_iff, or_false] at hop
+  rcases hop with rfl | rfl | rfl | rfl | rfl | rfl | rfl | rfl | rfl | rfl | rfl
+  · exact ⟨⟨by decide, by decide⟩, by intro d h; cases h⟩
+  · exact ⟨⟨by decide, by decide⟩, by intro d h; cases h⟩
+  · exact ⟨⟨by decide, by decide⟩, by intro d h; cases h⟩
+  · exact ⟨trivial, by intro d h; cases h⟩
+  · exact ⟨trivial, by intro d h; cases h; exact exDataOn_ok _ _⟩
+  · exact ⟨trivial, by intro d h; cases h; exact exDataOn_ok _ _⟩
+  · exact ⟨trivial, by intro d h; cases h⟩
+  · exact ⟨⟨by decide, by decide⟩, by intro d h; cases h⟩
+  · exact ⟨trivial, by intro d h; cases h; exact exDataOn_ok _ _⟩
+  · exact ⟨trivial, by intro d h; cases h; exact exDataOn_ok _ _⟩
+  · exact ⟨trivial, by intro d h; cases h⟩
+
+/-- the hypotheses of `history_counters_auto_dataOK` hold for `exAutoOps`; the streams really got automatic PIDs
+(0x100, 0x101, then 0x103 — `nextPID` moves on, 0x102 being taken), and packets are emitted on all of them -/
+example : (∀ op ∈ exAutoOps, OpOK' op ∧ ∀ d, op = .data d → DataOK d) ∧ (exAutoOps.filter isAdd).length ≤ 7934 ∧
+    (run (newMux 40) exAutoOps).2.streams.map (·.elementaryPID) = [0x100, 0x102, 0x103] ∧
+    (run (newMux 40) exAutoOps).1.map (fun c => (pktPID c, pktHasPayload c, pktCC c)) =
+      [(0, true, 0), (4096, true, 0), (0x100, true, 0), (0x100, true, 1), (0x101, true, 0), (0x103, true, 0),
+       (0x102, true, 0), (0x102, true, 1), (0, true, 1), (4096, true, 1)] :=
+  ⟨exAutoOps_ok, by decide, by decide +kernel, by decide +kernel⟩
+
+example : RunAll StepOKA (newMux 40) exAutoOps :=
+  MuxAuto.runAll_static _ exAutoOps (MuxTables.pidInv_new 40) exAutoOps_ok (by decide)
+
+/-- raw packets: one on a PID of its own (0x200, counter 9), one on the muxer's PID 0x100 (counter 7) -/
+def exRaw (pid cc : Nat) : Packet :=
+  { header := { continuityCounter := cc, hasAdaptationField := false, hasPayload := true, payloadUnitStartIndicator := false,
+                pid := pid, transportErrorIndicator := false, transportPriority := false, transportScramblingControl := 0 },
+    payload := List.replicate 184 1 }
+def exCalls : List Call :=
+  [.op (.add (exAutoES 0x1b)), .op (.setPCR 0x100), .op (.data (exDataOn 0x100 10)), .packet (exRaw 0x200 9),
+   .packet (exRaw 0x100 7), .op (.data (exDataOn 0x100 10))]
+
+/-- `history_counters_calls` applies to `exCalls`; its part (2) applies to PIDs 0 and 0x1000 (no raw packet there); on
+the shared PID 0x100 the muxer's own chunks carry 0, 1 but the complete output carries 0, 7, 1: **the muxer does not
+account for packets written through `WritePacket`** — a raw packet on a muxer PID breaks the continuity of that PID
+(the demuxer would see a discontinuity and drop the unit being assembled).  This is by design of the Go API
+(`WritePacket` is a pass-through), not a defect. -/
+example : RunAll StepOKA (newMux 40) (opsOf exCalls) ∧
+    (∀ c ∈ rawWritten (newMux 40) exCalls, pktPID c ≠ 0 ∧ pktPID c ≠ 4096) ∧
+    ccsOn 0x100 (ownWritten (newMux 40) exCalls) = [0, 1] ∧
+    ccsOn 0x100 (written (hist (newMux 40) exCalls).1) = [0, 7, 1] ∧
+    ccsOn 0x200 (written (hist (newMux 40) exCalls).1) = [9] ∧
+    ccsOn 0 (written (hist (newMux 40) exCalls).1) = [0] := by
+  refine ⟨MuxAuto.runAll_static _ _ (MuxTables.pidInv_new 40) ?_ (by decide), by decide +kernel, by decide +kernel,
+    by decide +kernel, by decide +kernel, by decide +kernel⟩
+  intro op hop
+  simp only [exCalls, opsOf, List.mem_cons, List.mem_nil_iff, or_false] at hop
+  rcases hop with rfl | rfl | rfl | rfl
+  · exact ⟨⟨by decide, by decide⟩, by intro d h; cases h⟩
+  · exact ⟨trivial, by intro d h; cases h⟩
+  · exact ⟨trivial, by intro d h; cases h; exact exDataOn_ok _ _⟩
+  · exact ⟨trivial, by intro d h; cases h; exact exDataOn_ok _ _⟩
+
+/-- the points excluded by `OpOK'`, evaluated.  (a) An explicit PID 0x1000 is accepted by the model (as by the Go
+code: `AddElementaryStream` only checks for duplicates) and `WriteData` on it then shares PID 0x1000 with the PMT
+packets while using a counter of its own: the PID carries 0 (PMT), 0 (PES): a duplicate counter.  (b) An explicit PID
+≥ 0x2000 is accepted too and its packets go out on the PID truncated to 13 bits (0x2100 → 0x100). -/
+example :
+    ccsOn 4096 (run (newMux 40) [.add { elementaryPID := 4096, streamType := 0x1b }, .setPCR 4096,
+      .data (exDataOn 4096 10)]).1 = [0, 0] ∧
+    (run (newMux 40) [.add { elementaryPID := 0x2100, streamType := 0x1b }, .setPCR 0x2100,
+      .data (exDataOn 0x2100 10)]).1.map pktPID = [0, 4096, 0x100] := by
+  constructor <;> decide +kernel
+
+end Auto
 
 end Astits.C05
